@@ -153,6 +153,43 @@ func hardPB(r *rand.Rand) (string, []gen.M) {
 	return front, cons
 }
 
+// normalizeCases: every constructor call enumerated by Normalize.tla goes through the real
+// constructor and front end, alone or mixed with a unit constraint over one of its variables.
+func normalizeCases(env *core.Env, emitted []core.Case) []core.Case {
+	var res []core.Case
+	for i, e := range emitted {
+		kind, _ := e["k"].(string)
+		c := gen.Ctor(kind, toInts(e["lits"]), toInts(e["w"]), int(e["rhs"].(float64)))
+		front := "pb"
+		switch kind {
+		case "atmost1", "exactly1":
+			front = "card"
+		case "clause", "atleast":
+			if i%2 == 0 {
+				front = "card"
+			}
+		}
+		cons := []gen.M{c}
+		if i%2 == 1 { // a unit constraint over one of the variables: parse-time simplification
+			l := 1 + env.Rand.Intn(len(c["lits"].([]int)))
+			if env.Rand.Intn(2) == 0 {
+				l = -l
+			}
+			if env.Rand.Intn(2) == 0 {
+				cons = []gen.M{gen.Clause(l), c}
+			} else {
+				cons = []gen.M{c, gen.Clause(l)}
+			}
+		}
+		res = append(res, gen.APICase(front, maxVarOfCons(cons), false, cons, false, nil, gen.Cfg(false, 0, 0, false, false, true), []gen.M{gen.Op("solve")}))
+	}
+	if !env.Quick() && len(res) > 40000 {
+		env.Rand.Shuffle(len(res), func(i, j int) { res[i], res[j] = res[j], res[i] })
+		res = res[:40000]
+	}
+	return res
+}
+
 func distinctVars(ls []int) bool {
 	seen := map[int]bool{}
 	for _, l := range ls {
@@ -260,6 +297,10 @@ func init() {
 	register(&core.Check{
 		ID:          "C02",
 		Amplify:     amplifyAPI,
+		Designs: []core.Design{
+			{Name: "normalize", Module: "Normalize", Cfg: "Normalize_quick.cfg", Tier: "quick", Workers: 4, XmxMB: 4000, Timeout: 10 * time.Minute, ToCases: normalizeCases},
+			{Name: "normalize", Module: "Normalize", Cfg: "Normalize_thorough.cfg", Tier: "thorough", Workers: 16, XmxMB: 8000, Timeout: 30 * time.Minute, ToCases: normalizeCases},
+		},
 		TraceModule: "APITrace",
 		Cases: func(env *core.Env) []core.Case {
 			r := env.Rand
@@ -381,6 +422,11 @@ func init() {
 	register(&core.Check{
 		ID:          "C05",
 		Amplify:     amplifyAPI,
+		Designs: []core.Design{
+			{Name: "twowatch-highest", Module: "TwoWatch", Cfg: "TwoWatch_intended.cfg", Tier: "quick", Workers: 4, XmxMB: 2000, Timeout: 5 * time.Minute},
+			{Name: "twowatch-highest", Module: "TwoWatch", Cfg: "TwoWatch_intended4.cfg", Tier: "thorough", Workers: 8, XmxMB: 4000, Timeout: 10 * time.Minute},
+			{Name: "twowatch-lowest", Module: "TwoWatch", Cfg: "TwoWatch_ascoded.cfg", Workers: 1, XmxMB: 2000, Timeout: 5 * time.Minute, ExpectViolation: "Complete"},
+		},
 		TraceModule: "APITrace",
 		Cases: func(env *core.Env) []core.Case {
 			r := env.Rand
@@ -578,6 +624,33 @@ func init() {
 	register(&core.Check{
 		ID:          "C15",
 		Amplify:     amplifyAPI,
+		Designs: []core.Design{
+			{Name: "amo", Module: "AMO", Cfg: "AMO.cfg", Workers: 8, XmxMB: 6000, Timeout: 10 * time.Minute, ToCases: func(env *core.Env, emitted []core.Case) []core.Case {
+				var res []core.Case
+				for i, e := range emitted {
+					var clauses [][]int
+					for _, c := range e["F"].([]any) {
+						clauses = append(clauses, toInts(c))
+					}
+					if len(clauses) < 2 {
+						continue
+					}
+					if env.Quick() && i%2 == 1 { // quick tier: every other set
+						continue
+					}
+					if i%4 >= 2 {
+						clauses = gen.Shuffle(env.Rand, clauses)
+					}
+					cfg := gen.Cfg(false, 0, 0, i%3 == 0, true, false)
+					ev := []gen.M{gen.Op("solve")}
+					if i%5 == 0 {
+						ev = []gen.M{gen.Op("count")}
+					}
+					res = append(res, gen.APICase("slicenb", 3, true, gen.ClauseCtors(clauses), false, nil, cfg, ev))
+				}
+				return res
+			}},
+		},
 		TraceModule: "APITrace",
 		Cases: func(env *core.Env) []core.Case {
 			r := env.Rand
